@@ -226,7 +226,13 @@ func (vc *VC) unop(x *ssa.UnOp) SVal {
 	switch x.Op {
 	case token.MUL:
 		vc.derefCheck(v, x.Pos(), R)
-		return vc.load(v, x.Type(), vc.curMem)
+		r := vc.load(v, x.Type(), vc.curMem)
+		if g, ok := x.X.(*ssa.Global); ok && r.K == KRef && vc.eng.initOnlyGlobal(g) {
+			// package-level variable assigned only by the package initialiser
+			vc.fact("true", lt("0", r.S))
+			vc.note("package-level variable %s is assigned only during package initialisation and is assumed non-nil", g.Name())
+		}
+		return r
 	case token.NOT:
 		return boolV(not(v.S))
 	case token.SUB:
@@ -492,8 +498,12 @@ func (vc *VC) equal(a, b SVal, T types.Type) string {
 		// only comparison with nil is legal Go
 		return eq(a.obj(), "0")
 	case KPtr:
-		if b.K == KRef {
+		// nil is "object 0", whatever the offset component says
+		if b.K == KRef || (b.K == KPtr && b.obj() == "0") {
 			return eq(a.obj(), "0")
+		}
+		if a.obj() == "0" {
+			return eq(b.obj(), "0")
 		}
 		return and(eq(a.obj(), b.obj()), eq(a.off(), b.off()))
 	case KString:
